@@ -109,6 +109,16 @@ func tablesOf(pc *shared.PlannerContext) *Tables {
 		pc.Metrics15sTableName, pc.ProfilesSeriesGinTable}
 }
 
+// a stored profile series on one day (rows of profiles_series_gin are derived from it: one per label)
+type PSeries struct {
+	Fp      uint64      `json:"fp"`
+	Day     int64       `json:"day"`
+	TypeID  string      `json:"type_id"`
+	Service string      `json:"service"`
+	Stu     [][2]string `json:"stu"`
+	Labels  [][2]string `json:"labels"`
+}
+
 type Selector struct {
 	Name string `json:"n"`
 	Op   string `json:"op"`
@@ -129,6 +139,7 @@ type Case struct {
 	Rows    []Row       `json:"rows,omitempty"`
 	Fetch   []LabelsRow `json:"fetch,omitempty"`
 	DB      *DB         `json:"db,omitempty"`
+	PDB     []PSeries   `json:"pdb,omitempty"`
 	Oracle  []ReEntry   `json:"oracle,omitempty"`
 	Sorted  bool        `json:"sort_series,omitempty"`
 	// observations
@@ -333,6 +344,105 @@ func genProf(r *rand.Rand) ([]Selector, string) {
 	return sels, "{" + strings.Join(parts, ", ") + "}"
 }
 
+var typeIDs = []string{"process_cpu:cpu:nanoseconds", "memory:alloc_objects:count", "memory:inuse_space:bytes", "goroutine:goroutine:count", "process_cpu", ""}
+var stus = [][][2]string{
+	{{"cpu", "nanoseconds"}, {"samples", "count"}},
+	{{"alloc_objects", "count"}, {"alloc_space", "bytes"}},
+	{{"goroutine", "count"}},
+	{{"cpu", "bytes"}},
+	{},
+}
+var profLabelPool = [][]string{{"pod", "p-1", "p-2", "my-svc"}, {"region", "eu-west", "us-east"}, {"a_b", "it's", "a b", "x%y"}}
+
+func genPDB(r *rand.Rand, c *Ctx) []PSeries {
+	var res []PSeries
+	n := 2 + r.Intn(4)
+	dayFrom, dayTo := c.FromNs/86400000000000, c.ToNs/86400000000000
+	for i := 0; i < n; i++ {
+		s := PSeries{Fp: r.Uint64(), TypeID: pick(r, typeIDs), Service: []string{"my-svc", "api", "api-gw", ""}[r.Intn(4)],
+			Stu: stus[r.Intn(len(stus))]}
+		if r.Intn(3) == 0 {
+			s.Fp = uint64(1 + r.Intn(30))
+		}
+		for _, p := range profLabelPool {
+			if r.Intn(2) == 0 {
+				s.Labels = append(s.Labels, [2]string{p[0], p[1+r.Intn(len(p)-1)]})
+			}
+		}
+		if len(s.Labels) == 0 {
+			s.Labels = append(s.Labels, [2]string{"pod", "p-1"})
+		}
+		s.Day = dayFrom + int64(r.Intn(int(dayTo-dayFrom)+1))
+		switch r.Intn(8) {
+		case 0:
+			s.Day = dayFrom - 1
+		case 1:
+			s.Day = dayTo + 1
+		}
+		res = append(res, s)
+		if r.Intn(4) == 0 { // the same labels (same fingerprint) under another profile type
+			t := s
+			t.TypeID = pick(r, typeIDs)
+			t.Stu = stus[r.Intn(len(stus))]
+			res = append(res, t)
+		}
+	}
+	return res
+}
+
+func partOf(parts []string, k int) string {
+	if k < len(parts) {
+		return parts[k]
+	}
+	return ""
+}
+
+func genProfOracle(sels []Selector, pdb []PSeries) []ReEntry {
+	vals := map[string]bool{"": true}
+	for _, s := range pdb {
+		parts := strings.Split(s.TypeID, ":")
+		for _, p := range parts {
+			vals[p] = true
+		}
+		vals[s.Service] = true
+		for _, ab := range s.Stu {
+			vals[ab[0]], vals[ab[1]] = true, true
+			vals[partOf(parts, 0)+":"+ab[0]+":"+ab[1]+":"+partOf(parts, 1)+":"+partOf(parts, 2)] = true
+		}
+		for _, kv := range s.Labels {
+			vals[kv[1]] = true
+		}
+	}
+	var vs []string
+	for v := range vals {
+		vs = append(vs, v)
+	}
+	sort.Strings(vs)
+	var res []ReEntry
+	done := map[string]bool{}
+	for _, m := range sels {
+		if (m.Op != "=~" && m.Op != "!~") || done[m.Val] {
+			continue
+		}
+		done[m.Val] = true
+		re, err := regexp.Compile(m.Val)
+		are, aerr := regexp.Compile("^(?:" + m.Val + ")$")
+		for _, v := range vs {
+			e := ReEntry{P: m.Val, V: v}
+			if err == nil {
+				e.Search = re.MatchString(v)
+			}
+			a := ReEntry{P: "^(?:" + m.Val + ")$", V: v, Anch: true}
+			if aerr == nil {
+				a.Search = are.MatchString(v)
+			}
+			e.Full = a.Search // Pyroscope selectors are Prometheus matchers: anchored
+			res = append(res, e, a)
+		}
+	}
+	return res
+}
+
 func runProf(c *Case) {
 	c.SQL, c.Err, c.ErrText = "", "", ""
 	script, err := profparser.Parse(c.Query)
@@ -351,6 +461,9 @@ func runProf(c *Case) {
 		sels = append(sels, Selector{Name: s.Name, Op: s.Op, Val: v})
 	}
 	c.Sels = sels
+	if c.PDB != nil {
+		c.Oracle = genProfOracle(sels, c.PDB)
+	}
 	pc := mkPlannerCtx(c.Ctx)
 	c.Tables = tablesOf(pc)
 	p := hx.Catch(func() {
@@ -696,6 +809,7 @@ func main() {
 			c.Ctx.FromNs += int64(r.Intn(2)) * int64(r.Intn(1800)) * 1000000000
 			_, c.Query = genProf(r)
 			c.Class = []string{"prof"}
+			c.PDB = genPDB(r, c.Ctx)
 		default:
 			c.Kind = "querier"
 			h, class := genHints(r)
